@@ -112,6 +112,12 @@ class TLCRun:
                 else:
                     self.ok = True
         finally:
+            try:
+                if proc.poll() is None:
+                    proc.kill()
+                    proc.wait()
+            except Exception:
+                pass
             self.wall = time.time() - t0
             if not self.keep:
                 shutil.rmtree(work, ignore_errors=True)
